@@ -3,29 +3,19 @@ C13 — A graceful leave is remembered across restarts.
 
 Model: `SerfModel.Snapshot` (`step … .leave`, `applyLine … .leave`, `compact`).
 
-FULL STATEMENTS (DESIGN 7 C13) — NOT PROVED as whole-history theorems yet:
-
-  theorem C13_no_rejoin (ord) (mc) (pre post : List Ev) (clk) :
-      (recover false (FS.applyAll {} (life ord false mc {} (pre ++ [.leave] ++ post) clk).2)).alive = []
-  theorem C13_rejoin_set (ord) (hord) (mc) (pre post) (clk) : (∀ e ∈ pre ++ post, WFEv e) →
-      MapEq (recover true (FS.applyAll {} (life ord true mc {} (pre ++ [.leave] ++ post) clk).2)).alive
-            (run ord (Snap.init true mc).1 pre).1.alive
-
-Proved below (the per-step facts the histories are made of):
-  * `C13_leave_line_forgets_partial`  — with rejoin-after-leave off, a file that ends with the
-    `leave` line replays to an empty rejoin set and zero clocks, whatever precedes it
-    (any bytes, including ill-formed names), as long as it is newline-terminated —
-    which every file the snapshotter writes is;
-  * `C13_leave_line_ignored_partial`  — with rejoin-after-leave on, the `leave` line changes nothing;
-  * `C13_leave_step_partial`          — the leave step preserves the invariant
-    "replay(file ++ buffered).alive = memory.alive" where memory.alive is emptied (off) or kept (on);
-  * `C13_clock_lines_keep_alive_partial` — lines appended after a leave (only `clock:` lines
-    are) never change the replayed rejoin set;
-  * compaction after the leave: `C10_compact_restores_partial` (the alive block written
-    is the — empty or kept — in-memory map).
-Missing: the induction over `pre`/`post` chaining them (see Props/C10.lean).
+`C13_no_rejoin_partial` / `C13_rejoin_set_partial`: for every history `pre`, a leave, every
+history `post` (member/user/query events — ignored after the leave —, clock ticks, flush
+timing, forced compactions, further leaves), every threshold and every map order:
+after shutdown a restart recovers an EMPTY rejoin set when rejoin-after-leave is off,
+and exactly the alive map the node had at the moment of the leave when it is on.
+They are partial only in `WFEv` (member names without newline, see C10's finding
+`name-with-newline`); for the rejoin-on case that hypothesis is necessary (the kept
+alive block is written with the raw names); for the rejoin-off case it is believed
+unnecessary (the `leave` line resets whatever precedes it — `C13_leave_line_forgets_partial`
+holds for arbitrary bytes) but the whole-history proof below goes through the C10
+invariant and therefore assumes it.
 -/
-import SerfProofs.Lemmas.SnapshotInv
+import SerfProofs.Lemmas.SnapshotRuns
 namespace SerfProofs.C13
 open SerfModel SerfModel.Snapshot SerfProofs.Snapshot
 
@@ -73,5 +63,30 @@ theorem C13_leave_step_partial (ord : Order) (hord : PermOrder ord) (s : Snap) (
 example : let s : Snap := { leaving := true }
     endsNL (([] : Bytes) ++ s.buf) = true ∧ MapEq (if s.rejoin then (replay s.rejoin ([] ++ s.buf)).alive else []) s.mem.alive :=
   ⟨rfl, fun _ => rfl⟩
+
+/-- **rejoin-after-leave on**: the recovered rejoin set is the alive map at the moment of the leave. -/
+theorem C13_rejoin_set_partial (ord : Order) (hord : PermOrder ord) (mc : Nat) (pre post : List Ev) (clk : Nat)
+    (hwf : ∀ e ∈ pre ++ (Ev.leave :: post), WFEv e) :
+    MapEq (recover true (FS.applyAll {} (life ord true mc {} (pre ++ (Ev.leave :: post)) clk).2)).alive
+      (run ord (Snap.init true mc).1 pre).1.alive := by
+  have key := leave_generic ord hord (Snap.init true mc).1 _ (init_inv true mc) pre post clk hwf
+  rw [init_rejoin] at key
+  rw [life_fresh_fs]
+  exact key
+
+/-- **rejoin-after-leave off**: nothing is re-joined, whatever happened before or after the leave. -/
+theorem C13_no_rejoin_partial (ord : Order) (hord : PermOrder ord) (mc : Nat) (pre post : List Ev) (clk : Nat)
+    (hwf : ∀ e ∈ pre ++ (Ev.leave :: post), WFEv e) :
+    (recover false (FS.applyAll {} (life ord false mc {} (pre ++ (Ev.leave :: post)) clk).2)).alive = [] := by
+  have key := leave_generic ord hord (Snap.init false mc).1 _ (init_inv false mc) pre post clk hwf
+  rw [init_rejoin] at key
+  rw [life_fresh_fs]
+  exact eq_nil_of_alookup_none _ (fun k => key k)
+
+/-- non-vacuity: events before and after the leave -/
+example : ∀ e ∈ [Ev.join [(['a'], ['1', ':', '2'])] 5] ++ (Ev.leave :: [Ev.join [(['b'], ['3'])] 6, .clockTick 9, .forceCompact]), WFEv e := by
+  intro e he
+  simp only [List.cons_append, List.nil_append, List.mem_cons, List.mem_nil_iff, or_false] at he
+  rcases he with rfl | rfl | rfl | rfl | rfl <;> simp [WFEv, WFName, WFAddr]
 
 end SerfProofs.C13
